@@ -29,7 +29,7 @@ func init() {
 		},
 		Quick:    250000,
 		Thorough: 4000000,
-		Require:  []string{"ping.writeFails", "stream.readEndsInsideNextFrame", "handshake.slow", "received.requestWithSlowHandler", "received.peerPing", "received.strayAck", "keepalive.pingSent", "tick.exactlyAtPeriod", "tick.foundInactive", "pong.superseded", "tick.insideThePeriodOfAPing"},
+		Require:  []string{"ping.writeFails", "stream.readEndsInsideNextFrame", "handshake.slow", "received.requestWithSlowHandler", "received.peerPing", "received.strayAck", "keepalive.pingSent", "tick.exactlyAtPeriod", "tick.foundInactive", "pong.superseded", "tick.insideThePeriodOfAPing", "received.droppedByRequestMonitor"},
 		Assume: []string{
 			"keep-alive counts consecutive inactivity detections since the last reset; a detection is a tick later than one period after the last received message or the last detection (= the last ping), whichever is later: a ping has a period to be answered, whatever the spacing of the housekeeping ticks; the literal 'more than maxRetries pings unanswered' is never satisfied by any implementation that sends maxRetries pings",
 			"a pong for a superseded ping is accepted as either a reset or not (it is a received message; the statement does not say which wins)",
@@ -45,6 +45,13 @@ func c18Run(e *Env, keepalive bool) {
 	period := []time.Duration{4 * time.Second, time.Second, 16 * time.Second}[t.Choose(3)]
 	maxRetries := uint32(1 + t.Choose(3))
 	closedBy := 0
+	// the application filters what it receives (WithRequestMonitor: rate limiting, access control): a message it drops
+	// has been received from the peer all the same
+	filtering := t.Chance(1, 4)
+	isFiltered := func(r *pool.Message) bool {
+		p, err := r.Options().Path()
+		return err == nil && p == "/filtered"
+	}
 	var w *CWorld
 	if IsDatagram(tr) {
 		cfg := SimUDPConfig(2000)
@@ -68,7 +75,11 @@ func c18Run(e *Env, keepalive bool) {
 		} else {
 			options.WithInactivityMonitor(period, onInactive).UDPClientApply(&cfg)
 		}
-		w = NewCWorld(e, CWorldCfg{Transport: tr, UDP: cfg, Monitor: cfg.CreateInactivityMonitor()})
+		w = NewCWorld(e, CWorldCfg{Transport: tr, UDP: cfg, Monitor: cfg.CreateInactivityMonitor(), UDPMod: func(u *UDPEndpointCfg) {
+			if filtering {
+				u.ReqMonitor = func(_ *udpClient.Conn, r *pool.Message) (bool, error) { return isFiltered(r), nil }
+			}
+		}})
 	} else {
 		onInactive := func(cc *tcpClient.Conn) {
 			e.mu.Lock()
@@ -88,6 +99,7 @@ func c18Run(e *Env, keepalive bool) {
 				time.Sleep(period / 2)
 			}
 		})
+		filtering = false // (a stream client has no option for a request monitor; the servers of S-MONITOR/server-keepalive have)
 		w = NewCWorld(e, CWorldCfg{Transport: tr, TCPOpts: []tcp.Option{mon, slowHandler, options.WithCloseSocket()}})
 	}
 	if w == nil {
@@ -180,6 +192,12 @@ func c18Run(e *Env, keepalive bool) {
 				label := fmt.Sprintf("message #%d", nonce)
 				// whatever the peer sends is a sign of life: a request, a ping of its own, a stray acknowledgement or reset
 				switch t.Weighted(4, 2, 1, 1, 2) {
+				case 0:
+					if filtering && t.Chance(1, 2) {
+						e.Probe("received.droppedByRequestMonitor")
+						m.Opts = []WOpt{{Num: OptURIPath, Val: []byte("filtered")}}
+						label = fmt.Sprintf("message #%d (the application's request monitor drops it)", nonce)
+					}
 				case 4:
 					if !slowPending { // (one at a time: the next time advance of at least half a period lets it finish)
 						slowPending = true
